@@ -21,6 +21,7 @@ from allmydata.util.dictutil import DictOfSets
 
 B = hlib.bounds()
 NOTES = [
+    "surprise_is_ucwe: ServerMap.version_on_server on the instance returns None (it only feeds a log message in _got_write_answer's refused-write branch)",
     "`struct` in allmydata.mutable.layout replaced by FakeStruct (field lists with the real sizes and range checks); packed values "
     "support prefix slicing on field boundaries (checkstring[:n])",
     "the storage server is a recorder of slot_testv_and_readv_and_writev calls returning an already-fired Deferred with a symbolic answer",
@@ -108,14 +109,29 @@ SECRETS = (b"we", b"rs", b"cs")
 Q64 = 1 << 64
 
 
-class Server(object):
+from allmydata import storage_client as sc_mod
+hlib.encoded(sc_mod._StorageServer.slot_testv_and_readv_and_writev)
+NOTES.append("the writers talk to the REAL storage_client._StorageServer wrapper whose remote reference's callRemote is a recorder: "
+             "what is checked is what goes on the wire (4-tuple test vectors with the b'eq' operator)")
+
+
+class _Rref(object):
     def __init__(self, wrote):
         self.calls = []
         self.wrote = wrote
 
-    def slot_testv_and_readv_and_writev(self, si, secrets, tw_vectors, readv):
-        self.calls.append((si, secrets, tw_vectors, readv))
+    def callRemote(self, name, *args):
+        if name != "slot_testv_and_readv_and_writev":
+            raise hlib.HarnessError("unexpected remote call %s" % name)
+        self.calls.append(args)
         return defer.succeed((self.wrote, {}))
+
+
+def Server(wrote):
+    rref = _Rref(wrote)
+    srv = sc_mod._StorageServer(get_rref=lambda: rref)
+    srv.calls = rref.calls
+    return srv
 
 
 def _fire(d):
@@ -172,11 +188,11 @@ def h_sdmf_testv(mode: int, seq_old: int, seq_new: int, r_old: int, s_old: int, 
     (testv, datav, new_length) = tw[shnum]
     if mode == 0:
         # the empty-share test: reading 1 byte at offset 0 must yield nothing
-        if list(testv) != [(0, 1, b"")]:
-            return "new share is not guarded by the 'share does not exist' test vector"
+        if list(testv) != [(0, 1, b"eq", b"")]:
+            return "new share is not guarded by the 'share does not exist' test vector (0, 1, eq, b'')"
     else:
-        if len(testv) != 1 or testv[0][0] != 0 or testv[0][1] != real_struct.calcsize(lay.PREFIX) or testv[0][2] is not cs:
-            return "test vector is not (0, len(checkstring), checkstring the survey saw)"
+        if len(testv) != 1 or testv[0][:3] != (0, real_struct.calcsize(lay.PREFIX), b"eq") or testv[0][3] is not cs:
+            return "test vector is not (0, len(checkstring), eq, checkstring the survey saw) over the WHOLE checkstring"
     if len(datav) != 1 or datav[0][0] != 0 or new_length is not None:
         return "SDMF share is not written as one vector at offset 0"
     share = datav[0][1]
@@ -229,12 +245,12 @@ def h_mdmf_testv(mode: int, seq_old: int, seq_new: int, r_old: int, r_new: int, 
     (testv, datav, new_length) = tw[shnum]
     cslen = real_struct.calcsize(lay.MDMFCHECKSTRING)
     if old is None:
-        if list(testv) != [(0, 1, b"")]:
-            return "new share is not guarded by the 'share does not exist' test vector"
+        if list(testv) != [(0, 1, b"eq", b"")]:
+            return "new share is not guarded by the 'share does not exist' test vector (0, 1, eq, b'')"
     else:
-        if len(testv) != 1 or testv[0][0] != 0 or testv[0][1] != cslen:
-            return "test vector does not cover the checkstring range"
-        t = testv[0][2]
+        if len(testv) != 1 or testv[0][:3] != (0, cslen, b"eq"):
+            return "test vector does not compare the whole checkstring range for equality"
+        t = testv[0][3]
         if not isinstance(t, PF) or tuple(t.values) != old:
             return "test vector does not carry the (seqnum, root hash) the survey saw"
     # the write must install the NEW checkstring at offset 0 (so that other writers see the change)
@@ -253,15 +269,15 @@ def h_mdmf_testv(mode: int, seq_old: int, seq_new: int, r_old: int, r_new: int, 
     _fire(w._write([(200, b"more")]))
     (testv2, datav2, nl2) = srv.calls[1][2][shnum]
     if wrote:
-        if len(testv2) != 1 or testv2[0][:2] != (0, cslen) or tuple(testv2[0][2].values) != (1, seq_new, ROOTS[r_new]):
+        if len(testv2) != 1 or testv2[0][:3] != (0, cslen, b"eq") or tuple(testv2[0][3].values) != (1, seq_new, ROOTS[r_new]):
             return "after a successful write the next write does not test for our own checkstring"
         if [d for (off, d) in datav2 if off == 0]:
             return "checkstring rewritten on a later write"
     else:
         if old is None:
-            if list(testv2) != [(0, 1, b"")]:
+            if list(testv2) != [(0, 1, b"eq", b"")]:
                 return "after a refused write the empty-share expectation was lost"
-        elif tuple(testv2[0][2].values) != old:
+        elif tuple(testv2[0][3].values) != old:
             return "after a refused write the old expectation was lost"
     return True
 
@@ -285,13 +301,15 @@ class _NullStatus(object):
 
 
 def h_surprise(my_seq: int, their_seq: int, their_root: int, their_salt: int, wrote: bool,
-               extra: bool, extra_known: bool, in_goal: bool) -> bool:
+               extra: bool, extra_known: bool, wrote2: bool, second_first: bool) -> bool:
     """
-    pre: 0 <= my_seq < Q64 and 0 <= their_seq < Q64 and 0 <= their_root <= 1 and 0 <= their_salt <= 1
+    pre: 0 <= my_seq < Q64 and 0 <= their_seq < Q64 and 0 <= their_root <= B.get("rmax", 1) and 0 <= their_salt <= B.get("rmax", 1)
+    pre: their_salt == 0 or not B["mdmf"]
     post: _ == True
     """
     mdmf, asked, my_root = B["mdmf"], B["asked"], 0
-    their_root, their_salt = mm.pin(their_root, 0, 1), mm.pin(their_salt, 0, 1)
+    in_goal = second_first       # (whether the extra share is in our goal changes nothing: both branches `continue`)
+    their_root, their_salt = mm.pin(their_root, 0, B.get("rmax", 1)), mm.pin(their_salt, 0, B.get("rmax", 1))
     del _Q[:]
     if mdmf:
         mine = Struct.pack(lay.MDMFCHECKSTRING, 1, my_seq, ROOTS[my_root])
@@ -305,6 +323,8 @@ def h_surprise(my_seq: int, their_seq: int, their_root: int, their_salt: int, wr
     sm = sm_mod.ServerMap()
     if asked:
         sm.mark_server_reachable(srv)
+    # only consulted to build a log message in the refused-write branch ("%d" of the symbolic seqnum would realise it)
+    sm.version_on_server = lambda server, shnum: None
     pub = P.__new__(P)
     pub._node = NS(set_downloader_hints=lambda h: None)
     pub._servermap = sm
@@ -320,7 +340,7 @@ def h_surprise(my_seq: int, their_seq: int, their_root: int, their_salt: int, wr
     pub.placed = set()
     pub.bad_servers = set()
     pub.num_outstanding = 0
-    pub.versioninfo = ("verinfo",)
+    pub.versioninfo = mm.verinfo(3, 0, 1)
     pub._checkstring = mine
     pub._state = pub_mod.DONE_STATE
     pub.done_deferred = defer.Deferred()
@@ -335,7 +355,11 @@ def h_surprise(my_seq: int, their_seq: int, their_root: int, their_salt: int, wr
     read_data = {0: [theirs if not wrote else mine]}
     if extra:
         read_data[1] = [theirs]
-    pub._got_write_answer((wrote, read_data), w0, 998.0)
+    # two answers, in either order: the one under study from w0, and a plain one (no unknown shares) from w1
+    ans0 = ((wrote, read_data), w0)
+    ans1 = ((wrote2, {1: [mine if wrote2 else theirs]}), w1)
+    for (ans, w) in ([ans1, ans0] if second_first else [ans0, ans1]):
+        pub._got_write_answer(ans, w, 998.0)
     pub._push()
     while _Q:
         (f, a, kw) = _Q.pop(0)
@@ -348,7 +372,8 @@ def h_surprise(my_seq: int, their_seq: int, their_root: int, their_salt: int, wr
     ok = not isinstance(out[0], failure.Failure)
     # the statement: a refused test vector, or a share we are not writing on that server that holds a version
     # different from ours, means somebody else wrote => UncoordinatedWriteError
-    must_ucw = (not wrote) or (extra and not extra_known and not same)
+    # ... and the flag is sticky: once ANY answer was surprising, later unsurprising answers must not clear it
+    must_ucw = (not wrote) or (not wrote2) or (extra and not extra_known and not same)
     if must_ucw and not ucw:
         return "a different version was met but no UncoordinatedWriteError was reported"
     if not must_ucw:
@@ -357,5 +382,7 @@ def h_surprise(my_seq: int, their_seq: int, their_root: int, their_salt: int, wr
         if (srv, 0) not in pub.placed:
             return "accepted write not recorded as placed"
     if not wrote and (srv, 0) in pub.placed:
+        return "refused write recorded as placed"
+    if not wrote2 and (w1.server, 1) in pub.placed:
         return "refused write recorded as placed"
     return True
